@@ -11,6 +11,8 @@ import GoSecs.Drv.Linktest
 import GoSecs.Drv.Responder
 import GoSecs.Drv.Ownership
 import GoSecs.Drv.Lifecycle
+import GoSecs.Drv.Sml
+import GoSecs.Drv.Router
 
 open GoSecs
 
@@ -24,7 +26,9 @@ def handlers : List (String → List String → Option String) := [
   Drv.Linktest.handle,
   Drv.Responder.handle,
   Drv.Ownership.handle,
-  Drv.Lifecycle.handle
+  Drv.Lifecycle.handle,
+  Drv.Sml.handle,
+  Drv.Router.handle
 ]
 
 def dispatch (line : String) : String :=
